@@ -280,6 +280,37 @@ theorem parses_idx (i : Idx) (h : i.WF) (k : List Tok) : Parses gArrayIndex (i.t
     exact (Parses.map (Parses.seqL (ParsesList.cons (Parses.tok hlb) (ParsesList.cons hin
       (ParsesList.cons (Parses.tok hrb) ParsesList.nil))))).s_to rfl
 
+/-- the token after an identifier list is not a `,` -/
+def CStop (k : List Tok) : Prop := ∀ t r, k = t :: r → t.kind ≠ Kind.Comma ∧ t.kind ≠ Kind.Comment
+
+theorem CStop.of_sstop {k : List Tok} (h : SStop k) : CStop k := by
+  intro t r e
+  have := h t r e
+  exact ⟨fun hc => this (hc ▸ by decide +kernel), fun hc => this (hc ▸ comment_sbad)⟩
+
+theorem parses_identlist (rest : List (Tok × Tok)) (hr : commaWF rest) (k : List Tok) (hk : CStop k) :
+    ∀ (first : Tok), first.kind = Kind.Identifier →
+      Parses (.ref nIdentList) (first :: (commaToks rest ++ k)) k (Tree.list ((usesIds first rest).map Tree.leaf)) := by
+  induction rest with
+  | nil =>
+    intro first hf
+    have htl : Parses (.ifTok [Kind.Comma] (.ref nIdentList) (.eps (Tree.list []))) k k (Tree.list []) := by
+      cases k with
+      | nil => exact Parses.s_ifTok_nil Parses.eps
+      | cons t r =>
+        obtain ⟨h1, h2⟩ := hk t r rfl
+        exact Parses.s_ifTok_miss h2 (by simpa using h1) Parses.eps
+    exact Parses.ref (n := nIdentList) ((Parses.map (Parses.seq (Parses.tok hf) htl)).s_to rfl)
+  | cons ct more ih =>
+    intro first hf
+    obtain ⟨c, t⟩ := ct
+    obtain ⟨hc, ht, hmore⟩ := hr
+    have hrec := ih hmore t ht
+    have htl : Parses (.ifTok [Kind.Comma] (.ref nIdentList) (.eps (Tree.list []))) (c :: t :: (commaToks more ++ k)) k
+        (Tree.seq [.leaf c, Tree.list ((usesIds t more).map Tree.leaf)]) :=
+      Parses.s_ifTok_hit (by rw [hc]; decide) (by rw [hc]; decide) hrec
+    exact Parses.ref (n := nIdentList) ((Parses.map (Parses.seq (Parses.tok hf) htl)).s_to rfl)
+
 /-! ### enumerations and composed types -/
 
 theorem parses_evar (v : EVar) (h : v.WF) (k : List Tok) (hk : PStop k) : Parses gEnumVariant (v.toks ++ k) k v.tree := by
@@ -442,32 +473,51 @@ theorem parses_type (ty : Ty) (h : ty.WF) (k : List Tok) (hk : YStop k) : Parses
     exact ty_via 0 gTypeSized _ rfl t _ k _ (by rw [ht]; decide) (by intro p hp; cases hp)
       ((Parses.map (Parses.seqL (ParsesList.cons (Parses.tok ht) (ParsesList.cons (Parses.tok hlp)
         (ParsesList.cons (Parses.tok hn) (ParsesList.cons (Parses.tok hrp) ParsesList.nil)))))).s_to rfl)
-  | ref r t inv =>
-    obtain ⟨hr, ht, hinv⟩ := h
+  | ref r opts t inv =>
+    obtain ⟨hr, hopts, ht, hinv⟩ := h
     have hrc : r.kind ≠ Kind.Comment := by
       intro e; rw [e] at hr; revert hr; decide
     have htc : t.kind ≠ Kind.Comment := by rw [ht]; decide
-    have hopt (rest : List Tok) : Parses (.recover .silentAt gRefOptions) (t :: rest) (t :: rest) Tree.none :=
-      Parses.s_recover_silent (FailsAt.seqL (pre := []) ParsesList.nil (FailsAt.tok (by rw [ht]; decide) htc))
     have hkinds : ∀ p ∈ tyKw.take 3, ∀ x ∈ p.2, r.kind ≠ x := by
       simp only [List.mem_cons, List.not_mem_nil, or_false] at hr
       rcases hr with hr | hr <;> rw [hr] <;> decide +kernel
-    cases inv with
-    | none =>
-      have hd : Parses (.dep (.opt (.tok Kind.Inverse)) Tree.isSome (.tok Kind.Identifier)) k k (Tree.seq [Tree.none, Tree.none]) :=
-        Parses.s_dep_no (Parses.s_opt_none (hk.fails_tok _ (by simp))) rfl
-      exact ty_via 3 gTypeReference _ rfl r _ k _ hrc hkinds
-        ((Parses.map (Parses.seqL (ParsesList.cons (Parses.toks hr hrc) (ParsesList.cons (hopt k)
-          (ParsesList.cons (Parses.tok ht) (ParsesList.cons hd ParsesList.nil)))))).s_to rfl)
-    | some ix =>
-      obtain ⟨i, x⟩ := ix
-      obtain ⟨hi, hx⟩ := hinv i x rfl
-      have hd : Parses (.dep (.opt (.tok Kind.Inverse)) Tree.isSome (.tok Kind.Identifier)) (i :: x :: k) k
-          (Tree.seq [.leaf i, .leaf x]) :=
-        Parses.s_dep_yes (Parses.s_opt (Parses.tok hi)) rfl (Parses.tok hx)
-      exact ty_via 3 gTypeReference _ rfl r _ k _ hrc hkinds
-        ((Parses.map (Parses.seqL (ParsesList.cons (Parses.toks hr hrc) (ParsesList.cons (hopt (i :: x :: k))
-          (ParsesList.cons (Parses.tok ht) (ParsesList.cons hd ParsesList.nil)))))).s_to rfl)
+    -- the options, or their silent absence
+    have hopt (rest : List Tok) : ∃ v, Parses (.recover .silentAt gRefOptions) (optRefToks opts ++ t :: rest) (t :: rest) v := by
+      cases opts with
+      | none =>
+        exact ⟨_, Parses.s_recover_silent (FailsAt.seqL (pre := []) ParsesList.nil (FailsAt.tok (by rw [ht]; decide) htc))⟩
+      | some o =>
+        obtain ⟨lb, first, orest, rb⟩ := o
+        obtain ⟨hlb, hf, hor, hrb⟩ := hopts _ rfl
+        simp only at hlb hf hor hrb
+        have hl := parses_identlist orest hor (rb :: t :: rest) (by
+          intro t' r' e; cases e; rw [hrb]; exact ⟨by decide, by decide⟩) first hf
+        refine ⟨Tree.seq [.leaf lb, Tree.list ((usesIds first orest).map Tree.leaf), .leaf rb], ?_⟩
+        have : Parses (.recover .silentAt gRefOptions) (lb :: first :: (commaToks orest ++ rb :: t :: rest)) (t :: rest)
+            (Tree.seq [.leaf lb, Tree.list ((usesIds first orest).map Tree.leaf), .leaf rb]) :=
+          Parses.s_recover (m := .silentAt) (Parses.seqL (ParsesList.cons (Parses.tok hlb) (ParsesList.cons hl
+            (ParsesList.cons (Parses.tok (r := t :: rest) hrb) ParsesList.nil))))
+        simpa [optRefToks, RefOpts.toks] using this
+    have hfin : Parses (.ref nType) (r :: (optRefToks opts ++ t :: (invToks inv ++ k))) k
+        (Ty.tree (.ref r opts t inv)) := by
+      refine ty_via 3 gTypeReference _ rfl r _ k _ hrc hkinds ?_
+      cases inv with
+      | none =>
+        obtain ⟨v, hv⟩ := hopt k
+        have hd : Parses (.dep (.opt (.tok Kind.Inverse)) Tree.isSome (.tok Kind.Identifier)) k k (Tree.seq [Tree.none, Tree.none]) :=
+          Parses.s_dep_no (Parses.s_opt_none (hk.fails_tok _ (by simp))) rfl
+        exact (Parses.map (Parses.seqL (ParsesList.cons (Parses.toks hr hrc) (ParsesList.cons hv
+          (ParsesList.cons (Parses.tok ht) (ParsesList.cons hd ParsesList.nil)))))).s_to rfl
+      | some ix =>
+        obtain ⟨i, x⟩ := ix
+        obtain ⟨hi, hx⟩ := hinv i x rfl
+        obtain ⟨v, hv⟩ := hopt (i :: x :: k)
+        have hd : Parses (.dep (.opt (.tok Kind.Inverse)) Tree.isSome (.tok Kind.Identifier)) (i :: x :: k) k
+            (Tree.seq [.leaf i, .leaf x]) :=
+          Parses.s_dep_yes (Parses.s_opt (Parses.tok hi)) rfl (Parses.tok hx)
+        exact (Parses.map (Parses.seqL (ParsesList.cons (Parses.toks hr hrc) (ParsesList.cons hv
+          (ParsesList.cons (Parses.tok ht) (ParsesList.cons hd ParsesList.nil)))))).s_to rfl
+    simpa [Ty.toks] using hfin
   | range lo to hi =>
     obtain ⟨hlo, hto, hhi⟩ := h
     refine ty_via 4 gTypeRange _ rfl lo _ k _ (lit_table _ hlo).1 ?_ (parses_trange lo to hi k hlo hto hhi)
@@ -1023,37 +1073,6 @@ theorem rt_typeS (kw name colon : Tok) (ty : TyX) (h : (Stmt.typeS kw name colon
 /-! ### `uses a, b, …` and `const c = literal [multiLang]` (statements and declarations) -/
 
 omit hX
-
-/-- the token after an identifier list is not a `,` -/
-def CStop (k : List Tok) : Prop := ∀ t r, k = t :: r → t.kind ≠ Kind.Comma ∧ t.kind ≠ Kind.Comment
-
-theorem CStop.of_sstop {k : List Tok} (h : SStop k) : CStop k := by
-  intro t r e
-  have := h t r e
-  exact ⟨fun hc => this (hc ▸ by decide +kernel), fun hc => this (hc ▸ comment_sbad)⟩
-
-theorem parses_identlist (rest : List (Tok × Tok)) (hr : commaWF rest) (k : List Tok) (hk : CStop k) :
-    ∀ (first : Tok), first.kind = Kind.Identifier →
-      Parses (.ref nIdentList) (first :: (commaToks rest ++ k)) k (Tree.list ((usesIds first rest).map Tree.leaf)) := by
-  induction rest with
-  | nil =>
-    intro first hf
-    have htl : Parses (.ifTok [Kind.Comma] (.ref nIdentList) (.eps (Tree.list []))) k k (Tree.list []) := by
-      cases k with
-      | nil => exact Parses.s_ifTok_nil Parses.eps
-      | cons t r =>
-        obtain ⟨h1, h2⟩ := hk t r rfl
-        exact Parses.s_ifTok_miss h2 (by simpa using h1) Parses.eps
-    exact Parses.ref (n := nIdentList) ((Parses.map (Parses.seq (Parses.tok hf) htl)).s_to rfl)
-  | cons ct more ih =>
-    intro first hf
-    obtain ⟨c, t⟩ := ct
-    obtain ⟨hc, ht, hmore⟩ := hr
-    have hrec := ih hmore t ht
-    have htl : Parses (.ifTok [Kind.Comma] (.ref nIdentList) (.eps (Tree.list []))) (c :: t :: (commaToks more ++ k)) k
-        (Tree.seq [.leaf c, Tree.list ((usesIds t more).map Tree.leaf)]) :=
-      Parses.s_ifTok_hit (by rw [hc]; decide) (by rw [hc]; decide) hrec
-    exact Parses.ref (n := nIdentList) ((Parses.map (Parses.seq (Parses.tok hf) htl)).s_to rfl)
 
 theorem parses_uses (kw first : Tok) (rest : List (Tok × Tok)) (h : usesWF kw first rest) (k : List Tok) (hk : CStop k) :
     Parses gUses (usesToks kw first rest ++ k) k (usesTree kw first rest) := by
@@ -2625,13 +2644,19 @@ theorem copsWfb_iff (rest : List (Tok × COp)) : copsWfb rest = true ↔ copsWF 
   | nil => simp [copsWfb, copsWF]
   | cons po more ih => obtain ⟨p, o⟩ := po; simp [copsWfb, copsWF, ih, COp.wfb_iff, and_assoc]
 
+theorem commaWfb_iff (rest : List (Tok × Tok)) : commaWfb rest = true ↔ commaWF rest := by
+  induction rest with
+  | nil => simp [commaWfb, commaWF]
+  | cons ct more ih => obtain ⟨c, t⟩ := ct; simp [commaWfb, commaWF, ih, and_assoc]
+
+theorem RefOpts.wfb_iff (o : RefOpts) : o.wfb = true ↔ o.WF := by
+  simp [RefOpts.wfb, RefOpts.WF, commaWfb_iff, and_assoc]
+
 theorem Ty.wfb_iff (ty : Ty) : ty.wfb = true ↔ ty.WF := by
   cases ty with
   | composed first rest => simp [Ty.wfb, Ty.WF, COp.wfb_iff, copsWfb_iff]
-  | ref r t inv =>
-    cases inv with
-    | none => simp [Ty.wfb, Ty.WF]
-    | some ix => obtain ⟨i, x⟩ := ix; simp [Ty.wfb, Ty.WF, and_assoc]
+  | ref r opts t inv =>
+    cases opts <;> rcases inv with _ | ⟨i, x⟩ <;> simp [Ty.wfb, Ty.WF, RefOpts.wfb_iff, and_assoc]
   | array a i1 i2 ofT t => cases i2 <;> simp [Ty.wfb, Ty.WF, Idx.wfb_iff, and_assoc]
   | _ => simp [Ty.wfb, Ty.WF, and_assoc]
 
@@ -2673,11 +2698,6 @@ theorem absWfb_iff (abs : Option (Tok × Tok)) : absWfb abs = true ↔ absWF abs
   cases abs with
   | none => simp [absWfb, absWF]
   | some ax => obtain ⟨a, x⟩ := ax; simp [absWfb, absWF]
-
-theorem commaWfb_iff (rest : List (Tok × Tok)) : commaWfb rest = true ↔ commaWF rest := by
-  induction rest with
-  | nil => simp [commaWfb, commaWF]
-  | cons ct more ih => obtain ⟨c, t⟩ := ct; simp [commaWfb, commaWF, ih, and_assoc]
 
 theorem usesWfb_iff (kw first : Tok) (rest : List (Tok × Tok)) : usesWfb kw first rest = true ↔ usesWF kw first rest := by
   simp [usesWfb, usesWF, commaWfb_iff, and_assoc]
@@ -2791,5 +2811,22 @@ theorem noAssign_of_first (ets k : List Tok)
     rw [List.contains_iff_mem.mpr hin] at ht
     cases ht.1
   exact Fails.map (Fails.seqL (pre := []) ParsesList.nil (fails_dotops_nonident t (r ++ k) hni ht.2))
+
+/-- an expression that `parse_dot_ops` takes whole (a call, a member chain …) is not taken for an assignment
+    either: the assignment operator is missing.  (For `ExprSpec` instances whose statements are calls.) -/
+theorem noAssign_of_dotops (ets : List Tok) (t : Tree)
+    (h : ∀ k, Stop 0 k → Parses (.ref nDotOps) (ets ++ k) k t) (k : List Tok) (hk : SStop k) :
+    Fails gAssignment (ets ++ k) := by
+  have h0 : Stop 0 k := by
+    have h8 := hk.stop8
+    exact h8.mono.mono.mono.mono.mono.mono.mono.mono
+  exact Fails.map (Fails.seqL (pre := [.ref nDotOps]) (ParsesList.cons (h k h0) ParsesList.nil)
+    (hk.fails_toks _ (by decide +kernel)))
+
+/-- … and it may stand left of an assignment operator -/
+theorem lhs_of_dotops (ets : List Tok) (t : Tree)
+    (h : ∀ k, Stop 0 k → Parses (.ref nDotOps) (ets ++ k) k t) (op : Tok) (r : List Tok) (hop : op.kind ∈ assignOps) :
+    Parses (.ref nDotOps) (ets ++ op :: r) (op :: r) t :=
+  h (op :: r) (by intro t' r' e; cases e; exact (assign_table _ hop).1)
 
 end Gold.C06
